@@ -447,9 +447,15 @@ class AstInterpreter(InterpreterBase):
         raise mesonlib.MesonBugException('Unhandled node type')
 
     def evaluate_foreach(self, node: ForeachClauseNode) -> None:
+        self.evaluate_statement(node.items)
         asses = self.find_potential_writes(node)
+        loop_vars = {el.value for el in node.varnames}
         for ass in asses:
-            self.cur_assignments[ass].append((self.nesting.copy(), UnknownValue()))
+            uv = UnknownValue()
+            if ass in loop_vars:
+                # What the loop iterates over flows into the loop variables.
+                self.dataflow_dag.add_edge(node.items, uv)
+            self.cur_assignments[ass].append((self.nesting.copy(), uv))
         self.loop_depth += 1
         try:
             self.evaluate_codeblock(node.block)
@@ -460,7 +466,13 @@ class AstInterpreter(InterpreterBase):
         finally:
             self.loop_depth -= 1
         for ass in asses:
-            self.cur_assignments[ass].append((self.nesting.copy(), UnknownValue())) # In case the foreach loops 0 times.
+            # In case the foreach loops 0 times the value is unknown, but whatever
+            # the body last assigned still flows into it.
+            after_loop = UnknownValue()
+            last = self.get_cur_value_if_defined(ass)
+            if not isinstance(last, UndefinedVariable):
+                self.dataflow_dag.add_edge(last, after_loop)
+            self.cur_assignments[ass].append((self.nesting.copy(), after_loop))
 
     def evaluate_if(self, node: IfClauseNode) -> None:
         self.nesting.append(0)
